@@ -95,6 +95,32 @@ pub struct SketchState {
     pub resets: u32,
 }
 
+//
+// Switch points (controlled scheduling)
+//
+
+/// Callback invoked at the switch points of `sync::Cache` by threads that registered one.
+pub type PointHandler = Arc<dyn Fn(&'static str) + Send + Sync + 'static>;
+
+thread_local! {
+    static POINT_HANDLER: std::cell::RefCell<Option<PointHandler>> = const { std::cell::RefCell::new(None) };
+}
+
+/// Registers (or removes) the switch-point callback of the calling thread.
+pub fn set_point_handler(h: Option<PointHandler>) {
+    POINT_HANDLER.with(|p| *p.borrow_mut() = h);
+}
+
+/// A switch point: the calling thread is about to perform the step named `tag`.
+/// A no-op unless the thread registered a handler.
+#[inline]
+pub(crate) fn point(tag: &'static str) {
+    let h = POINT_HANDLER.with(|p| p.borrow().clone());
+    if let Some(f) = h {
+        f(tag);
+    }
+}
+
 /// An event of the maintenance task of `sync::Cache`.
 pub struct MaintEvent<'a, K> {
     pub tag: &'static str,
